@@ -64,6 +64,35 @@ theorem failed_call_leaves_no_trace {α : Type} (f : Nat → Bool) (p : Prog α)
   · simp only [runCalls, hs, hp, List.nil_append]
   · rw [h2] at h; cases h
 
+/-- the calls of a history that report success, each with the fault-free oracle -/
+def survivors {α : Type} : List ((Nat → Bool) × Prog α) → Store → List ((Nat → Bool) × Prog α)
+  | [], _ => []
+  | (f, p) :: rest, s =>
+    match (withTxn f p s).res with
+    | .err => survivors rest s
+    | .ok _ => ((fun _ => false), p) :: survivors rest (withTxn f p s).store
+
+/-- **a history under faults is the fault-free history of its successful calls**: for every sequence of API
+    calls and every fault oracle per call, the final store and the whole sequence of published notifications are
+    exactly those of running only the calls that reported success, without any fault — a failed call contributes
+    nothing, a successful one everything, at every position of every history -/
+theorem history_is_its_successes {α : Type} (calls : List ((Nat → Bool) × Prog α)) :
+    ∀ s : Store, runCalls calls s = runCalls (survivors calls s) s := by
+  induction calls with
+  | nil => intro s; rfl
+  | cons c rest ih =>
+    intro s
+    obtain ⟨f, p⟩ := c
+    cases hr : (withTxn f p s).res with
+    | err =>
+      rw [failed_call_leaves_no_trace f p rest s hr]
+      simp only [survivors, hr]
+      exact ih s
+    | ok a =>
+      obtain ⟨hs, hp, _⟩ := success_is_complete f p s a hr
+      simp only [survivors, hr, runCalls]
+      rw [← hs, ← hp, ← ih (withTxn f p s).store]
+
 /-- **explicit transactions**: calls made inside a caller's transaction change nothing that is committed and
     publish nothing until the creator commits; then all of it happens at once, or nothing on failure/discard -/
 theorem explicit_commit_all_or_nothing (fails : Nat → Bool) (t : Txn) (store : Store) :
@@ -90,5 +119,9 @@ example : (withTxn (fun n => n == 3) body2 empty).published = [] ∧
 example : (withTxn (fun _ => false) body2 empty).published = [7] ∧
     (withTxn (fun _ => false) body2 empty).store [1] = some [10] ∧
     (withTxn (fun _ => false) body2 empty).store [2] = some [20] := by decide
+
+/-- a history of three calls whose second fails at its second write: two notifications, two survivors -/
+def hist3 : List ((Nat → Bool) × Prog Nat) := [((fun _ => false), body2), ((fun n => n == 2), body2), ((fun _ => false), body2)]
+example : (runCalls hist3 empty).2 = [7, 7] ∧ (survivors hist3 empty).length = 2 := by decide
 
 end Defra.Props.C05
